@@ -39,8 +39,8 @@ func (x *Exec) execInstr(bc *blockCtx, in ssa.Instruction) ([]*Edge, bool) {
 			set(i, &Val{Typ: i.Type(), Loc: &Loc{Cell: ck, RootTyp: et, Typ: et}})
 			return nil, false
 		}
-		if at, ok := et.Underlying().(*types.Array); ok {
-			// heap array: lives in slice backing space so that it can be sliced
+		if at, ok := et.Underlying().(*types.Array); ok && allocIsSliced(i) {
+			// heap array that is sliced: lives in slice backing space
 			ref := x.freshRef("arr_" + i.Name())
 			key := x.heapKeySlice(at.Elem())
 			es := x.so.SortOf(at.Elem())
@@ -114,6 +114,7 @@ func (x *Exec) execInstr(bc *blockCtx, in ssa.Instruction) ([]*Edge, bool) {
 			if loc.Cell == nil && len(t.Args) > 0 && (t.Op == "select" || t.Sort == "Int" || t.Sort == "Slice") {
 				x.rangeFacts(t, i.Type(), bc.reach, 1)
 			}
+			x.oldRefFacts(t, i.Type())
 			set(i, val)
 		case token.SUB:
 			v := x.term(bc, i.X)
@@ -345,13 +346,21 @@ func (x *Exec) derefLoc(bc *blockCtx, in ssa.Instruction, p *Val) *Loc {
 
 func (x *Exec) freshRef(name string) *smt.Term {
 	r := x.b.Fresh("ref_"+name, "Int")
+	if x.freshSet == nil {
+		x.freshSet = map[int]bool{}
+	}
+	x.freshSet[r.ID] = true
+	// fresh references lie above every reference that existed at entry
+	x.axiom(x.b.Cmp(">=", r, x.b.Const("alloc0", "Int")))
 	x.axiom(x.b.Cmp(">", r, x.b.Int(0)))
 	for _, p := range x.paramRefs {
 		x.axiom(x.b.Not(x.b.Eq(r, p)))
+		x.markDistinct(r, p)
 	}
-	if len(x.freshRefs) < 12 {
+	if len(x.freshRefs) < 40 {
 		for _, p := range x.freshRefs {
 			x.axiom(x.b.Not(x.b.Eq(r, p)))
+			x.markDistinct(r, p)
 		}
 	}
 	x.freshRefs = append(x.freshRefs, r)
@@ -815,4 +824,33 @@ func (x *Exec) typeAssert(bc *blockCtx, i *ssa.TypeAssert) *Val {
 	}
 	x.check(bc, "safe:assert", i, ok)
 	return res
+}
+
+// allocIsSliced reports whether the address of a heap array is used by a Slice instruction.
+func allocIsSliced(a *ssa.Alloc) bool {
+	if refs := a.Referrers(); refs != nil {
+		for _, r := range *refs {
+			if _, ok := r.(*ssa.Slice); ok {
+				return true
+			}
+		}
+	}
+	return false
+}
+
+// oldRefFacts: a reference read from the initial heap existed at entry, hence
+// is below alloc0 (and so distinct from everything allocated by this call).
+func (x *Exec) oldRefFacts(t *smt.Term, typ types.Type) {
+	if t.Bound || !x.fromInitHeap(t) {
+		return
+	}
+	a0 := x.b.Const("alloc0", "Int")
+	switch typ.Underlying().(type) {
+	case *types.Pointer, *types.Map:
+		x.axiom(x.b.Cmp("<", t, a0))
+	case *types.Slice:
+		x.axiom(x.b.Cmp("<", x.sRef(t), a0))
+	case *types.Interface:
+		x.axiom(x.b.Cmp("<", x.b.App("i_ref", "Int", t), a0))
+	}
 }
